@@ -72,6 +72,25 @@ fn main() {
     println(n);
 }
 `, "lib": "pub fn many() -> int {\n    let t = 0;\n    for i in 0..2 { t += i; }\n    for i in 0..2 { t += i; }\n    for i in 0..2 { t += i; }\n    for i in 0..2 { t += i; }\n    for i in 0..2 { t += i; }\n    for i in 0..2 { t += i; }\n    for i in 0..2 { t += i; }\n    for i in 0..2 { t += i; }\n    for i in 0..2 { t += i; }\n    for i in 0..2 { t += i; }\n    t\n}\nfn main() {}\n"}},
+	// whatever names the compiler gives to function literals, they are the same in every run
+	{Name: "function-literals-shown-by-name", Tree: true, Mods: map[string]string{"main": `fn main() {
+    let a = fn(x: int) -> int { x + 1 };
+    let b = fn(x: int) -> int { x * 2 };
+    let o = new { ? };
+    o.set("first", a);
+    o.set("second", b);
+    println(o);
+    let c = fn(d: int) -> int { 10 / d };
+    println(c(0));
+}
+`}},
+	{Name: "uncaught-throw-inside-a-function-literal", Tree: true, Mods: map[string]string{"main": `fn main() {
+    let first = fn() -> int { 1 };
+    let failing = fn(msg: str) -> int { throw(msg); 0 };
+    println(first());
+    println(failing("from a literal"));
+}
+`}},
 	{Name: "object-to-json", Tree: true, Mods: map[string]string{"main": `fn main() {
     let o = new { b: 1, a: [1, 2], c: "x" };
     println(o.to_json());
@@ -317,7 +336,7 @@ func detRun(p detProg) detObs {
 		return o
 	}
 	ov := RunVM(a, defaultOpts())
-	o.vm = ov.Key()
+	o.vm = ov.Key() + "|trace=" + ov.Trace // (the frames of a fatal error are reported by name)
 	if cc := crashClass(ov); cc != "" {
 		o.vm = cc
 	}
